@@ -22,8 +22,7 @@ CHECKS = {
              "identifier or, for a variable / parameter, the declaration that created its array type (alias chains followed), and "
              "predefined entities, int, anonymous array types yield no location. For ALL documents (valid or not): no handler "
              "panics under nav_wf_b, no identifier / no context => no location, answers are token ranges, definition = "
-             "declaration, global positions ignore locals, elsewhere a local wins. Scope: `valid program` = layout of a well-typed "
-             "abstract program rather than `document without diagnostics` (front-end completeness is not proved); documents as "
+             "declaration, global positions ignore locals, elsewhere a local wins. `Valid program` is read both ways: as `layout of a well-typed abstract program` (C12_valid) and as `document without any diagnostic and without lexical error` (C12_full : C12_full_statement) - the two coincide by the front-end completeness theorem (Proofs/CompleteFront.v front_end_complete: a clean parse tree is the mandated tree of a derivation of its token vector, and no attached semantic error means well-typed); documents as "
              "built from a text (incremental updates: C01). Tie to the code and failing-input search: model = server on every "
              "identifier occurrence x column, non-identifier tokens, gaps, outside positions, malformed documents; the judge "
              "decides every instance of the full statement; independent oracle from the derivation (tools/splscope.py).",
@@ -36,7 +35,8 @@ CHECKS = {
              "position inside it, find-references returns exactly the other occurrences bound to the same declaration, rename one "
              "edit per occurrence of that binding (declaration included) and nothing else, none for predefined entities, and "
              "prepare-rename the identifier's range exactly when rename is offered (occurrences and bindings computed from the tree "
-             "alone, Spec/Nav.v; the answers are even equal as lists in tree order). For ALL documents: no handler panics under "
+             "alone, Spec/Nav.v; the answers are even equal as lists in tree order), and the same for every document without "
+             "diagnostics (C13_full : C13_full_statement, by front-end completeness). For ALL documents: no handler panics under "
              "nav_wf_b, no identifier => null, predefined names never renamed, user names always, prepareRename <=> rename, "
              "references are rename edits, edits are token ranges with the cursor's name. NOT proved: the second half (applying a "
              "rename to a fresh name keeps diagnostics and binding partition, renaming back restores the text: "
@@ -57,8 +57,7 @@ CHECKS = {
              "C14_sighelp_valid_none: no answer when no call statement's range contains the cursor. (The model answers on the whole "
              "range of the call statement, also on the callee name and on `)` `;` - more than the property asks, recorded in "
              "DESIGN.) For ALL documents: shape of every hover and signature-help answer, no identifier => no hover, totality. "
-             "Scope: `valid program` = layout of a well-typed abstract program rather than `document without diagnostics` "
-             "(front-end completeness not proved). Tie to the code and failing-input search: model = server at every "
+             "`Valid program` is read both ways: as `layout of a well-typed abstract program` (C14_hover_valid, C14_sighelp_valid) and as `document without any diagnostic and without lexical error` (C14_hover_full, C14_sighelp_full) - the two coincide by the front-end completeness theorem (Proofs/CompleteFront.v front_end_complete: a clean parse tree is the mandated tree of a derivation of its token vector, and no attached semantic error means well-typed). Tie to the code and failing-input search: model = server at every "
              "occurrence/column and every cursor position inside call argument lists; oracle from the derivation.",
         design_ref="DESIGN.md sections 5 (C14) and 10.2",
         technique="Coq proof (hover and signature help: full functional statements for valid programs via the parser round trip and the typing theorems; answer shapes and totality for all documents) over Gallina models of the handlers + correspondence through the binary + scoping oracle"),
@@ -77,9 +76,8 @@ CHECKS = {
              "tokens): every identifier occurrence is reported with the kind of the entry it is bound to under SPL scoping (type / "
              "function / parameter / variable) and the declaration modifier exactly on its declaring occurrence, and nothing else "
              "is reported at that position. Scope of the proof: documents as built from a text; a document reached through "
-             "incremental updates equals that one only where C01 holds (known finding C01-incparse), and `valid program` is "
-             "`layout of a well-typed abstract program` rather than `document without diagnostics` (front-end completeness is not "
-             "proved). Tie to the code and search for failing inputs: model = server on generated programs, layouts and malformed "
+             "incremental updates equals that one only where C01 holds (known finding C01-incparse). `Valid program` is read both ways: as `layout of a well-typed abstract program` (C15_valid) and as `document without any diagnostic and without lexical error` (C15_full_clean) - the two coincide by the front-end completeness theorem (Proofs/CompleteFront.v front_end_complete: a clean parse tree is the mandated tree of a derivation of its token vector, and no attached semantic error means well-typed). "
+             "Tie to the code and search for failing inputs: model = server on generated programs, layouts and malformed "
              "documents; well-formedness and classification oracles from the derivation.",
         design_ref="DESIGN.md sections 5 (C15) and 10.2",
         technique="Coq proof (well-formedness of the delta-encoded stream for every analysed text; binding kinds and declaration modifier for every valid program via the parser round trip and the typing theorems) over a Gallina model + correspondence through the binary + classification oracle"),
@@ -97,7 +95,8 @@ CHECKS = {
              "(C16_statement_position_valid, C16_nested_statement_position_valid); at a type position (behind `:` or `of` in a "
              "procedure, behind `=` or `of` in a type declaration) the types are exactly the declared types plus int "
              "(C16_type_position_valid, C16_type_decl_position); between / before / behind the global declarations exactly the "
-             "declaration starters (C16_toplevel_position_valid). Two defects found while proving (no declared types behind `=` of "
+             "declaration starters (C16_toplevel_position_valid); each also for every document without diagnostics (C16_*_clean, by "
+             "front-end completeness). Two defects found while proving (no declared types behind `=` of "
              "a type declaration, null behind `of` in a procedure) are repaired in /repo f933470. The statement over ALL positions "
              "of the four classes is refuted (C16_full_statement_refuted): five position classes on which the classifier answers "
              "null or incompletely are known findings (cursor directly behind a token, comment line before the cursor, start of a "
@@ -115,7 +114,8 @@ CHECKS = {
              "token of the declaration to the line of the end of its last token (C17_count, C17_extents). For EVERY abstract program "
              "of the grammar and every text that lexes to its token kinds (every layout) the ranges are exactly one per procedure "
              "in source order, from the line of the proc keyword (after doc comments) to the line of the closing brace (C17_valid, "
-             "via the C04 round trip). Tie to the code: model = server on generated programs x layouts (doc comments, several "
+             "via the C04 round trip), and so for every text whose parse tree carries no syntax error (C17_clean, by parser "
+             "completeness). Tie to the code: model = server on generated programs x layouts (doc comments, several "
              "procedures per line, CRLF, lone CR, mixed terminators) and on the malformed stream; fold_pre still evaluated per case.",
         design_ref="DESIGN.md sections 5 (C17) and 10.2",
         technique="Coq proof (well-formedness for every analysed text; exact extents for every valid program by composition with the C04 round trip) over a Gallina model of the folding handler + correspondence through the binary"),
